@@ -584,6 +584,10 @@ func (self Node) Fields(ids []PathNode, rootLayer bool, msgDesc *proto.MessageDe
 			return errNode(meta.ErrRead, "", it.Err)
 		}
 		f := msgDesc.ByNumber(i)
+		if f == nil {
+			// a field unknown to the descriptor: the iterator has already skipped its value
+			continue
+		}
 		typDesc := f.Type()
 		if typDesc.IsMap() || typDesc.IsList() {
 			it.p.Read = tagPos
